@@ -24,10 +24,10 @@ sys.path.insert(0, HERE)
 
 from polarlint.model import Repo, AnalysisError  # noqa: E402
 from polarlint.core import Ob, Rule, Result, run_rules, run_mutants, violation_keys, write_evidence, load_known  # noqa: E402
-from polarlint.rules import conformance, libcontract, state, splice, pipeline, validate, flow, bayes, mechanisms, formulas, lattice, discipline, stats, sensitivity  # noqa: E402
+from polarlint.rules import conformance, libcontract, state, splice, pipeline, validate, flow, bayes, mechanisms, formulas, lattice, discipline, stats, sensitivity, solvers  # noqa: E402
 
 R = {}
-for mod in (conformance, libcontract, state, splice, pipeline, validate, flow, bayes, mechanisms, formulas, lattice, discipline, stats, sensitivity):
+for mod in (conformance, libcontract, state, splice, pipeline, validate, flow, bayes, mechanisms, formulas, lattice, discipline, stats, sensitivity, solvers):
     for k, v in mod.RULES.items():
         if k in R:
             raise SystemExit(f"duplicate rule id {k}")
@@ -66,6 +66,15 @@ PROPERTIES = {
         specs=[S("D1"), S("A1-cond"), S("A4M"), S("FRESHCTX"), S("INDICATOR")],
         clause="indicator polynomials of And/Or/Not/True/False equal their boolean meaning on all rows; composite conditions recurse into every child; the three "
                "get_moment bodies share the guarded-assignment shape. NOT decided: Atom's Lagrange indicator, power reduction, closure, coefficients."),
+    "C04": dict(
+        specs=[S("ANSATZ"), S("FIT"), S("GEOMSUM"), S("SOLVERDISPATCH"), S("ROOTS"), S("SOLVERFLAG"), S("LOSSY", r"utils/expressions.py"), S("EXCEPT", r"get_all_roots")],
+        clause="the general solution of the characteristic-root solver has the m terms C*n**i*r**n (i < m) for every non-zero root of multiplicity m; its constants are fitted on (ansatz at n, n-th iterate) pairs "
+               "taken from max(1, multiplicity of the root 0) on (the ansatz leaves the root 0 out); the summation solver is the geometric-sum identity x(n) = c**(n-s) x(s) + sum_{k=s}^{n-1} c**(n-k-1) f(k) "
+               "(exponents, bounds and start index compared as rational functions) and is chosen only for acyclic systems; every root source is complete (all_roots / intervals(all=True) on square-free factors with the "
+               "factor's multiplicity / roots() only below degree 5) and an approximated root clears the exactness flag that both solvers forward. "
+               "NOT decided: that a closed form equals A^n v (values), the number of listed special cases, agreement of the two strategies.",
+        technique="role-based shape analysis of the two solvers: loop-nest recognition of the ansatz, pairing and lower bound of the fit equations (alias resolution, comparison as rational functions), "
+                  "exponent / bound identities of the geometric sum, CFG control dependence of the solver choice, library-contract check of the root sources, def-use of the exactness flag"),
     "C05": dict(
         specs=[S("ENUM"), S("TYPER"), S("TYPERFIX"), S("SUPPORT"), S("SUPPORTKIND"), S("IMPLIED"), S("MARKLAST"), S("GUARD"), S("LRUMUT"), S("QUANT", r"finite_fixed_point_typer|finite.py")],
         clause="discrete supports enumerate the values the moment/sampler sides use; intervals are refused; only non-failed numeric sets become types; the start state "
